@@ -1008,10 +1008,16 @@ func (r *Runner) finish(start time.Time, allExh bool) int {
 			}
 		}
 		violations++
+		exit = 1
+		if violations > 25 {
+			continue // artefacts and lines for the first 25 root causes are enough
+		}
 		path := r.writeReplay(f)
 		fmt.Printf("VIOLATION property=%s replay=%s\n", r.Check.Property, path)
 		fmt.Printf("  signature: %s (%d executions)\n  %s\n", sig, r.failN[sig], truncate(f.Message, 600))
-		exit = 1
+	}
+	if violations > 25 {
+		fmt.Printf("  ... and %d more distinct failure signatures (not listed)\n", violations-25)
 	}
 	r.writeEvidence(start, allExh, violations, knownHits)
 	var ex, ev int64
